@@ -121,6 +121,18 @@ def cases(chk):
                         lambda b, a=(shape, vis, mut): file_of(b, [('contract', 'Contract', [make_variable(b, 'uint256', a[1], a[2], False, init=a[2] == 'constant', name=a[0])])])))
         for vis in VIS:
             out.append(('fn named %s %s' % (shape, vis), lambda b, a=(shape, vis): file_of(b, [('contract', 'Contract', [make_function(b, 'Function', a[1], False, True, False, name=a[0])])])))
+    # function names are NOT unique within a file (overloads, the same name in two contracts, an interface and its implementation): each of
+    # them is judged on its own
+    for v1, v2, where in itertools.product(('internal', 'private', 'public'), ('internal', 'private', 'external'), ('overloads', 'two contracts', 'interface')):
+        def same_name(b, a=(v1, v2, where)):
+            f1 = make_function(b, 'Function', a[0], False, True, False, name='sync')
+            f2 = b.function('Function', 'sync', [b.param(b.ty('Uint', 256), None, 'extra')], [b.fattr('visibility', a[1])], b.block([b.expr_stmt(b.var('extra'))]) if a[2] != 'interface' else None)
+            if a[2] == 'overloads':
+                return file_of(b, [('contract', 'Contract', [f1, f2])])
+            if a[2] == 'two contracts':
+                return file_of(b, [('contract', 'Contract', [f1]), ('contract', 'Contract', [f2])])
+            return file_of(b, [('contract', 'Interface', [b.function('Function', 'sync', [b.param(b.ty('Uint', 256), None, 'extra')], [b.fattr('visibility', 'external')], None)]), ('contract', 'Contract', [f1])])
+        out.append(('fn same name `sync` %s / %s as %s' % (v1, v2, where), same_name))
     for t, mut in itertools.product(['uint256', 'string', 'user'], ['constant']):
         out.append(('file-level %s %s' % (t, mut), lambda b, a=(t, mut): file_of(b, [('filevar', make_variable(b, a[0], None, a[1], False, init=True)),
                                                                                        ('contract', 'Contract', [])])))
